@@ -91,7 +91,7 @@ def run(ck, w):
     cb = w.body(CHECK)
     o = ck.ob("C06.1d", "GarbageCollectionLock::check returns Ok only if last_band_id() still equals the remembered id")
     eqs = rules.eq_tests(cb, r"Option<bandid::BandId>|Option<T>|BandId")
-    oks = [bb for bb, j, s in rules.agg_sites(cb, "std::result::Result", "Ok")]
+    oks = [bb for bb, j, s in rules.agg_sites(cb, "std::result::Result", "Ok") if s["pl"]["l"] == 0]
     if not eqs or not oks:
         ck.fail(o, cb.name, "no comparison of band ids", "check() no longer compares the newest band id")
     else:
